@@ -26,7 +26,7 @@ class IrParseException(Exception):
 def tokenize(lines):
     # Create a regular expression for the lexing part:
     tok_spec = [
-        ("FLOAT", r"\-?\d+\.\d+"),
+        ("FLOAT", r"\-?\d+(?:\.\d+(?:e[+-]?\d+)?|e[+-]?\d+)"),
         ("INT", r"\-?\d+"),
         ("STRING", r"'[^']*'"),
         ("ID", r"[A-Za-z][A-Za-z\d_]*"),
